@@ -183,6 +183,15 @@ theorem C07_partial (s : RStore) (cand : RoomNode) (g : candGuard s cand = true)
     accept Defects.asImplemented s cand = accept Defects.none s cand :=
   accept_congr g
 
+/-- **C07, the code as it is decides as the intended checks do on every candidate whose placing references are
+    signed by the entries' authors** (`placingOk`) — the only guard left since findings/C07-placing-references-v2.patch:
+    labels, source entities and the references room → group are checked by the code itself. The guard cannot go: the
+    repository's own test `room_node::tests::invalid` requires a placing reference re-signed by an unrelated key to be
+    accepted; what it still lets through is `C07_breaks_placingEdge_crossList` / `_crossRoom` (under `afterLabelFix`). -/
+theorem C07_full_asImplemented (s : RStore) (cand : RoomNode) (g : cand.placingOk = true) :
+    accept Defects.asImplemented s cand = accept Defects.none s cand :=
+  C07_partial s cand (by simp [candGuard, candGuardD, Defects.asImplemented, g])
+
 /-- the same for /repo before the fix 77018f3, under the stronger guard that was needed then
     (room row unchanged or newer and signed by an admin; no new group carrying user-admin entries) -/
 theorem C07_partial_beforeFixes (s : RStore) (cand : RoomNode) (g : candGuardBeforeFixes s cand = true) :
